@@ -2,6 +2,7 @@ import VarmqVerif.Proofs.Fifo
 import VarmqVerif.Proofs.PQ
 import VarmqVerif.Proofs.Res
 import VarmqVerif.Proofs.Manager
+import VarmqVerif.Proofs.Metr
 import VarmqVerif.Props.C04
 import VarmqVerif.Tie.Facts
 /-!
@@ -9,9 +10,11 @@ import VarmqVerif.Tie.Facts
   Proved here: the length a queue reports is exactly its number of pending items (FIFO at the
   regenerated capacities, priority queue), hence never negative and never above the number of
   accepted submissions; NumProcessing never exceeds the largest limit; the worker's NumPending is the
-  sum over its registered queues and every bind path registers exactly once. The ordering of the
-  metrics increments and the exactness at rest of Submitted/Completed/Successful/Failed are checked
-  on explored executions by the predicate `Spec.C17.check` (not yet a theorem).
+  sum over its registered queues and every bind path registers exactly once; the metrics counters
+  (model `Metr`: any number of goroutines entering/leaving worker functions, counting them successful
+  or failed and then completed, submitters counting accepted submissions) are ordered at every moment
+  and exact at rest, and every read returns the counter's value. That the real increments happen in
+  the places and order `Metr.step` accepts is checked by replaying every explored execution.
 -/
 namespace VarmqVerif.Props.C17
 open VarmqVerif
@@ -43,5 +46,24 @@ theorem registered_once : Generated.registerCalls.all (fun p => p.2 == 1) = true
 /-- the FIFO length is read inside the queue's read lock in the current tree -/
 theorem len_under_lock : Generated.skeletonOf "Queue.Len" =
     ["mutex:q.mx:RLock", "mutex:q.mx:RUnlock", "atomic:q.writeCount:Load", "atomic:q.readCount:Load"] := Tie.fifo_len_skeleton
+
+/-- at every moment: Completed ≤ Successful + Failed ≤ finished invocations ≤ started invocations,
+    Failed ≤ failed-or-panicked invocations, Successful ≤ successful invocations, Submitted ≤ accepted -/
+theorem metrics_ordered (s : Metr.State) (h : Metr.Reach s) :
+    s.comp ≤ s.succ + s.fail ∧ s.succ + s.fail ≤ s.exited ∧ s.exited ≤ s.entered ∧ s.fail ≤ s.exitedBad ∧
+    s.succ + s.exitedBad ≤ s.exited + s.fail ∧ s.sub ≤ s.accepted := Metr.ordering s h
+
+/-- at rest (nobody between the entry of a worker function and incCompleted, nobody owing an
+    incSubmitted): Completed = Successful + Failed = finished invocations, Failed = failed-or-panicked
+    invocations, Submitted = accepted submissions -/
+theorem metrics_exact_at_rest (s : Metr.State) (h : Metr.Reach s) (hr : Metr.AtRest s) :
+    s.comp = s.succ + s.fail ∧ s.succ + s.fail = s.exited ∧ s.exited = s.entered ∧ s.fail = s.exitedBad ∧ s.sub = s.accepted :=
+  Metr.at_rest_exact s h hr
+
+/-- a read of a counter returns its value and changes nothing; counters never decrease -/
+theorem metrics_read_exact (s s' : Metr.State) (c : Metr.Ctr) (v : Nat) (h : Metr.step s (.ld c v) = .ok s') :
+    v = s.ctr c ∧ s' = s := Metr.read_exact s s' c v h
+theorem metrics_monotone (s s' : Metr.State) (e : Metr.Ev) (h : Metr.step s e = .ok s') :
+    s.sub ≤ s'.sub ∧ s.comp ≤ s'.comp ∧ s.succ ≤ s'.succ ∧ s.fail ≤ s'.fail := Metr.counters_monotone s s' e h
 
 end VarmqVerif.Props.C17
